@@ -711,8 +711,8 @@ type ValuesCase struct {
 	VT []int `json:"vt"` // the value transformation is v -> VT[v mod len(VT)]
 }
 
-func valuesProp(c ValuesCase, r *pbt.R) error {
-	es := canon(c.M)
+// valuesRound checks Keys, Values, MapValues, MapCollection, Invert and MapUnique on the map mk() hands over, whose entries are es.
+func valuesRound(es []P, vt []int, mk func() map[int]int, where func() string) error {
 	keys := make([]int, len(es))
 	for i, e := range es {
 		keys[i] = e[0]
@@ -721,9 +721,70 @@ func valuesProp(c ValuesCase, r *pbt.R) error {
 	dvals := distinct(vals)
 	images := make([]int, len(es))
 	for i, e := range es {
-		images[i] = tab(c.VT, e[1])
+		images[i] = tab(vt, e[1])
 	}
 	simages := sortedCopy(images)
+	if got := gogu.Keys(mk()); !equalInts(sortedCopy(got), keys) {
+		return fmt.Errorf("%s: Keys = %v, want every key once: %v", where(), got, keys)
+	}
+	if got := gogu.Values(mk()); !equalInts(sortedCopy(got), vals) {
+		return fmt.Errorf("%s: Values = %v, want the value of every entry once: %v", where(), got, vals)
+	}
+	mv := gogu.MapValues(mk(), func(v int) img { return img(tab(vt, v)) })
+	okMV := len(mv) == len(es)
+	for i, e := range es {
+		if v, ok := mv[e[0]]; !ok || v != img(images[i]) {
+			okMV = false
+		}
+	}
+	if !okMV {
+		return fmt.Errorf("%s, function table %v: MapValues = %v, want every key with the image of its value", where(), vt, mv)
+	}
+	if got := gogu.MapCollection(mk(), func(v int) int { return tab(vt, v) }); !equalInts(sortedCopy(got), simages) {
+		return fmt.Errorf("%s, function table %v: MapCollection = %v, want the image of every value once: %v", where(), vt, got, simages)
+	}
+	inv := gogu.Invert(mk())
+	if len(inv) != len(dvals) {
+		return fmt.Errorf("%s: Invert = %v has %d keys, the map has %d distinct values", where(), inv, len(inv), len(dvals))
+	}
+	for _, v := range dvals {
+		k, ok := inv[v]
+		if !ok {
+			return fmt.Errorf("%s: Invert = %v misses the value %d", where(), inv, v)
+		}
+		if ov, has := lookup(es, k); !has || ov != v {
+			return fmt.Errorf("%s: Invert = %v maps %d to %d, which is not a key that held it", where(), inv, v, k)
+		}
+	}
+	u := gogu.MapUnique(mk())
+	n := 0
+	seen := make([]int, 0, len(u))
+	for _, e := range es {
+		gv, ok := u[e[0]]
+		if !ok {
+			continue
+		}
+		n++
+		if gv != e[1] {
+			return fmt.Errorf("%s: MapUnique = %v changed the value under key %d", where(), u, e[0])
+		}
+		if in(seen, gv) {
+			return fmt.Errorf("%s: MapUnique = %v keeps the value %d twice", where(), u, gv)
+		}
+		seen = append(seen, gv)
+	}
+	if n != len(u) {
+		return fmt.Errorf("%s: MapUnique = %v holds a key the map does not have", where(), u)
+	}
+	if len(seen) != len(dvals) {
+		return fmt.Errorf("%s: MapUnique = %v keeps %d values, the map has %d distinct values %v", where(), u, len(seen), len(dvals), dvals)
+	}
+	return nil
+}
+
+func valuesProp(c ValuesCase, r *pbt.R) error {
+	es := canon(c.M)
+	dvals := distinct(sortedCopy(valuesOf(es)))
 	r.NonTrivialIf(len(es) >= 2, ">= 2 entries")
 	if len(dvals) < len(es) {
 		r.Label("a value occurs under several keys (Invert / MapUnique are free)")
@@ -732,63 +793,25 @@ func valuesProp(c ValuesCase, r *pbt.R) error {
 	}
 	for rep := 0; rep < reps; rep++ {
 		where := func() string { return fmt.Sprintf("m=%s (run %d)", show(es), rep) }
-		if got := gogu.Keys(build(es, rep)); !equalInts(sortedCopy(got), keys) {
-			return fmt.Errorf("%s: Keys = %v, want every key once: %v", where(), got, keys)
-		}
-		if got := gogu.Values(build(es, rep)); !equalInts(sortedCopy(got), vals) {
-			return fmt.Errorf("%s: Values = %v, want the value of every entry once: %v", where(), got, vals)
-		}
-		mv := gogu.MapValues(build(es, rep), func(v int) img { return img(tab(c.VT, v)) })
-		okMV := len(mv) == len(es)
-		for i, e := range es {
-			if v, ok := mv[e[0]]; !ok || v != img(images[i]) {
-				okMV = false
-			}
-		}
-		if !okMV {
-			return fmt.Errorf("%s, function table %v: MapValues = %v, want every key with the image of its value", where(), c.VT, mv)
-		}
-		if got := gogu.MapCollection(build(es, rep), func(v int) int { return tab(c.VT, v) }); !equalInts(sortedCopy(got), simages) {
-			return fmt.Errorf("%s, function table %v: MapCollection = %v, want the image of every value once: %v", where(), c.VT, got, simages)
-		}
-		inv := gogu.Invert(build(es, rep))
-		if len(inv) != len(dvals) {
-			return fmt.Errorf("%s: Invert = %v has %d keys, the map has %d distinct values", where(), inv, len(inv), len(dvals))
-		}
-		for _, v := range dvals {
-			k, ok := inv[v]
-			if !ok {
-				return fmt.Errorf("%s: Invert = %v misses the value %d", where(), inv, v)
-			}
-			if ov, has := lookup(es, k); !has || ov != v {
-				return fmt.Errorf("%s: Invert = %v maps %d to %d, which is not a key that held it", where(), inv, v, k)
-			}
-		}
-		u := gogu.MapUnique(build(es, rep))
-		n := 0
-		seen := make([]int, 0, len(u))
-		for _, e := range es {
-			gv, ok := u[e[0]]
-			if !ok {
-				continue
-			}
-			n++
-			if gv != e[1] {
-				return fmt.Errorf("%s: MapUnique = %v changed the value under key %d", where(), u, e[0])
-			}
-			if in(seen, gv) {
-				return fmt.Errorf("%s: MapUnique = %v keeps the value %d twice", where(), u, gv)
-			}
-			seen = append(seen, gv)
-		}
-		if n != len(u) {
-			return fmt.Errorf("%s: MapUnique = %v holds a key the map does not have", where(), u)
-		}
-		if len(seen) != len(dvals) {
-			return fmt.Errorf("%s: MapUnique = %v keeps %d values, the map has %d distinct values %v", where(), u, len(seen), len(dvals), dvals)
+		if err := valuesRound(es, c.VT, func() map[int]int { return build(es, rep) }, where); err != nil {
+			return err
 		}
 	}
-	return nil
+	// One map object serves two rounds: between them every value is raised in place (same object, same keys, same size,
+	// other values). An answer remembered per map object would be stale.
+	m := build(es, 0)
+	same := func() map[int]int { return m }
+	if err := valuesRound(es, c.VT, same, func() string { return fmt.Sprintf("m=%s (one map object for every call)", show(es)) }); err != nil {
+		return err
+	}
+	es2 := make([]P, len(es))
+	for i, e := range es {
+		es2[i] = P{e[0], e[1] + 1000}
+		m[e[0]] = e[1] + 1000
+	}
+	return valuesRound(es2, c.VT, same, func() string {
+		return fmt.Sprintf("m=%s, the same map object that held %s before every value was raised by 1000 in place", show(es2), show(es))
+	})
 }
 
 func valuesEnum(s pbt.Src, thorough bool) ValuesCase {
